@@ -36,7 +36,8 @@ COVERAGE_TARGETS = ['ctor:par', 'ctor:fn', 'ctor:rx', 'ctor:nested', 'ctor:skipf
                     'late:skipfn:ok', 'set:ref:linked:skip', 'set:ref:free:skip',
                     'set:ref:free:ok', 'set:ref:linked:ok', 'set:plain:linked:ok', 'srcSet:synced:ok', 'srcSet:sync:ValueError',
                     'srcSet:quiet:ok', 'ctxEnter:ok', 'ctxExit:ok', 'update:ok', 'setCls:ok', 'ctxEnter:form:kw', 'ctxEnter:form:dict', 'ctxEnter:form:pos',
-                    'update:form:kw', 'update:form:dict', 'update:form:pos']
+                    'update:form:kw', 'update:form:dict', 'update:form:pos',
+                    'shared:ctor-link', 'shared:set:ref:ok', 'shared:set:plain:ok', 'shared:update:ok', 'shared:ctxEnter:ok']
 PROP = 'C08'
 
 run_impl = R.run_impl
@@ -82,6 +83,7 @@ def directed():
         }
     probe = [{'op': 'srcSet', 's': s, 'i': i, 'v': v, 'note': 'probe'} for s, i, v in
              ((0, 0, 3), (0, 1, 1), (1, 0, 2), (1, 1, 0), (2, 0, 1), (2, 1, 4), (0, 0, 0))]
+    npi = 0
     for (lk, ref), late, two in itertools.product(links.items(), (False, True), (False, True)):
         slot = 2 if lk == 'nested' else 0
         other = 1
@@ -95,7 +97,10 @@ def directed():
                 ops.append({'op': 'set', 't': 0, 'p': slot, 'rhs': ref})
             else:
                 ctor.append([slot, ref])
-            targets = [{'params': [dict(p) for p in R.STD], 'ctor': ctor}]
+            # every other case of the grid declares the parameters with per_instance=False (the instance has no
+            # Parameter copy of its own: the link machinery must still work on the instance)
+            npi += 1
+            targets = [{'params': R.shared_params(R.STD) if npi % 2 else [dict(p) for p in R.STD], 'ctor': ctor}]
             if two:
                 targets.append({'params': [R.P(), R.P(lo=0, hi=10)], 'ctor': [[0, R.par(0, 0)], [1, R.fn([[0, 0]], 0, lk == 'rx')]]})
             ops = ops + [dict(o) for o in follow(slot, other)[a]] + [dict(o) for o in follow(slot, other)[b]] + [dict(o) for o in probe]
